@@ -35,6 +35,7 @@ pub struct RunStats {
   pub state_digests: Vec<u64>,
   pub combos_ok: BTreeSet<String>,
   pub combos_err: BTreeSet<String>,
+  pub not_code: BTreeSet<String>,
 }
 
 pub struct RunResult {
@@ -129,7 +130,7 @@ pub fn run_session(mut src: Source, supported: Arc<BTreeSet<String>>, properties
     // render validation: the text must come back from the real parser as exactly this statement
     let tree = match parse_cached(&text) {
       Ok(t) if tree_matches(&op, &t) => t,
-      _ => { bump(&mut stats.reach, "not_code"); log.push(format!("#{} {}  [dropped: not parsed as the intended statement]", i, text)); dig.str(&text); dig.str("not-code"); continue; }
+      _ => { bump(&mut stats.reach, "not_code"); if stats.not_code.len() < 3 { stats.not_code.insert(text.clone()); } log.push(format!("#{} {}  [dropped: not parsed as the intended statement]", i, text)); dig.str(&text); dig.str("not-code"); continue; }
     };
     let verdict = model.apply(&op);
     let pre = model.store.clone();
